@@ -46,6 +46,14 @@ CHECKS = {
         text="Proof that the DropRange containment test is exact (all nine bound kinds), so every removed table lies inside R; empty/inverted ranges are no-ops; removal preserves the version invariant and reads of keys not in removed tables; earlier snapshots untouched (C02 machine). Real histories use bounds generated relative to table boundaries; every removed table's keys are checked to lie inside R, keys outside R and held snapshots are re-certified against the unmodified history.",
         note=NOTE_TB + "Reads of keys inside R after the drop are unspecified by the property and rebased on the physical content.",
         design="7/C15", technique="Coq proof (bounds algebra + invariant closure under removal) + differential histories"),
+    "C17": dict(
+        text="Proof that for ANY deterministic verdict function the compaction stream's output reads, for every key and every snapshot above its versions, exactly like the input with the verdicts applied to its entries (cstream_top_view_noweak over filter_all), that the filter is never consulted on tombstones, that replacements keep key and seqno, that the stream is key-local and that every replaced/dropped entry is reported exactly once; old snapshots are spared by the C02 machine. Real trees run with a table-driven filter whose every call is logged; the call sequence must equal the model's, the output must equal the model stream's, and the ordered-map history is transformed per verdict and compared on all reads (standard and blob trees, replacements across the separation threshold).",
+        note=NOTE_TB + "RemoveWeak/Destroy are only generated for keys written once (as the property states); the examined entry is identified by (key, value).",
+        design="7/C17", technique="Coq proof (stream with a verdict parameter) + logged-filter differential histories"),
+    "C19": dict(
+        text="Proof about the transliterated FIFO selection: nothing is chosen within limit and TTL, every expired table is chosen, no chosen non-expired table is newer than a retained one, what is retained fits the limit, the choice is minimal, duplicate-free and a subset; dropping keeps the version sound. On real append-only trees with an overridden clock each FIFO run's removed set is checked directly against those statements and against the extracted selection function; retained keys are re-read and re-certified, also after reopen.",
+        note=NOTE_TB + "Monotone append-only histories as the property states (the strategy asserts a single-run L0); creation times come from the clock hook.",
+        design="7/C19", technique="Coq proof (sorted-prefix argument on the selection function) + direct outcome checks with a clock hook"),
     "C18": dict(
         text="Proof that get_highest_persisted_seqno (max over tables of stored upper bound + global seqno) equals the maximum effective seqno actually stored, likewise for memtables and overall, for every structurally sound superversion; on every real dump the three getters are compared with the brute-force maxima and across reopen.",
         note=NOTE_TB + "Quiescent states (concurrent lag is C06).",
